@@ -736,6 +736,13 @@ func ExecOp(w *e.World, st *e.Step) (e.TxResult, bool) {
 			return e.TxResult{}, false
 		}
 		opts := e.TxOpts{EIP712: st.Net == "eip712", EIP712Direct: st.Net == "eip712d"}
+		if st.Op == "lv_liquidate" {
+			// liquidation deploys an ERC20 contract: more than the default 3M gas
+			opts.Gas = 9_000_000
+			if mg := w.Cfg.BlockMaxGas; mg > 0 && int64(opts.Gas) > mg {
+				opts.Gas = uint64(mg)
+			}
+		}
 		if w.Cfg.Flag("byz_basic") == 0 {
 			// honest path: a tx whose messages fail stateless validation never leaves
 			// the client / never passes CheckTx. With the byz_basic flag a byzantine
